@@ -7,6 +7,6 @@ d=/tmp/wt_$n
 git -C /repo worktree remove --force "$d" 2>/dev/null || true
 rm -rf "$d"
 git -C /repo worktree add --detach "$d" HEAD >/dev/null 2>&1
-if [ -d /repo/target/debug ]; then mkdir -p "$d/target"; cp -a /repo/target/debug "$d/target/debug"; fi
+if [ -d /repo/target/debug ]; then mkdir -p "$d/target"; cp -a /repo/target/debug "$d/target/debug" 2>/dev/null || true; fi
 cp /verif/tools/wt_test.sh "$d/RUN_TESTS.sh"
 echo "$d"
